@@ -58,6 +58,7 @@ var HostileStrings = []string{
 	" ", "😀", "\uFEFF", "   ", "  a\n    b\n  c", `ends with quote"`, `back\`, `A`, "#not comment", "\r", "a\r\nb",
 	"\b\f", "/slash/", `""`, `""""`, "tab\there", "\ttabfirst", "line1\n line2", "\n", " \n ", "é́", "\U0001F600x", " nbsp", "{}[]()$@!|&=:", "...", "on",
 	"a\n\n\nb", "  indented first\nsecond", "x\n  \ny", "\x1b[0m", "\u0085", "\u200B",
+	"100%", "a%b %s %d %v %!", "%",
 	"\U000F0000", "\U000E0001tag", "\u00ad", "\u000b\u001f\u200b", "  first\n\n  second", "\u00ff\u0abc\ufffe",
 }
 
